@@ -62,21 +62,68 @@ def run_pair(c):
         S = m["al"].make_generic_scoring_dict(c["gmatch"], mt)
     else:
         S = _sdict(c["S"])
-    f = m["al"].local_pairwise if c["local"] else m["al"].global_pairwise
-    m["pw"].HIRSCHBERG_LIMIT = 0 if c.get("hirsch") else m["limit"]
+    opts = c.get("opts") or {}
+    limit = _limit(c)
+
+    def call():
+        """the aligner in the configuration of the case -> (rows or None, score or None)"""
+        kw = {k: opts[k] for k in ("use_logs", "use_scaling", "backward") if k in opts}
+        if opts.get("order") or opts.get("score_only"):
+            # _align_pairwise (the body of classic_align_pairwise) with the classic tables built here, so that the
+            # state order of the transition matrix / return_alignment=False can be varied
+            import numpy
+            from cogent3.align import indel_model
+
+            alpha = s1.moltype.alphabet
+            Sm = numpy.zeros([len(alpha), len(alpha)], float)
+            for i, m1 in enumerate(alpha):
+                for j, m2 in enumerate(alpha):
+                    Sm[i, j] = S[m1, m2]
+            psub = numpy.exp(Sm)
+            mprobs = numpy.ones(len(psub), float) / len(psub)
+            if opts.get("order") == "MXY":
+                inf = numpy.inf
+                C = numpy.array([[0, c["d"], c["d"]], [0, c["e"], inf], [0, inf, c["e"]]])
+                T = numpy.exp(-1.0 * C)
+                T = T / numpy.sum(T, axis=1)[..., numpy.newaxis]
+                TM = indel_model.pair_transition_matrix("MXY", T)
+            else:
+                TM = indel_model.classic_gap_scores(c["d"], c["e"])
+            if opts.get("score_only"):
+                return None, float(m["al"]._align_pairwise(s1, s2, mprobs, psub, TM, c["local"], return_alignment=False, **kw))
+            aln, score = m["al"]._align_pairwise(s1, s2, mprobs, psub, TM, c["local"], return_score=True, **kw)
+        elif c.get("api") == "classic":
+            if opts.get("no_score"):
+                aln, score = m["al"].classic_align_pairwise(s1, s2, S, c["d"], c["e"], c["local"], **kw), None
+            else:
+                aln, score = m["al"].classic_align_pairwise(s1, s2, S, c["d"], c["e"], c["local"], return_score=True, **kw)
+        else:
+            f = m["al"].local_pairwise if c["local"] else m["al"].global_pairwise
+            if opts.get("no_score"):
+                aln, score = f(s1, s2, S, c["d"], c["e"]), None
+            else:
+                aln, score = f(s1, s2, S, c["d"], c["e"], return_score=True)
+        d = aln.to_dict()
+        return [d["a"], d["b"]], (None if score is None else float(score))
+
+    m["pw"].HIRSCHBERG_LIMIT = m["limit"] if limit is None else limit
     try:
-        aln, score = f(s1, s2, S, c["d"], c["e"], return_score=True)
+        rows, score = call()
     finally:
         m["pw"].HIRSCHBERG_LIMIT = m["limit"]
-    d = aln.to_dict()
-    out = {"rows": [d["a"], d["b"]], "score": float(score), "n": len(s1.moltype.alphabet),
-           "alphabet": "".join(s1.moltype.alphabet)}
-    if c.get("hirsch"):
-        # the same input through the full dynamic programme
-        aln2, score2 = f(s1, s2, S, c["d"], c["e"], return_score=True)
-        d2 = aln2.to_dict()
-        out["full"] = {"rows": [d2["a"], d2["b"]], "score": float(score2)}
+    out = {"rows": rows, "score": score, "n": len(s1.moltype.alphabet), "alphabet": "".join(s1.moltype.alphabet)}
+    if limit is not None:
+        # the same input and configuration through the full dynamic programme (default threshold)
+        rows2, score2 = call()
+        out["full"] = {"rows": rows2, "score": score2}
     return out
+
+
+def _limit(c):
+    """HIRSCHBERG_LIMIT of the case: None = the module default"""
+    if c.get("hlimit") is not None:
+        return int(c["hlimit"])
+    return 0 if c.get("hirsch") else None
 
 
 def _pairwise_alns(c):
@@ -103,6 +150,15 @@ def run_ref(c):
     if c.get("d") is not None:
         kw = dict(insertion_penalty=c["d"], extension_penalty=c["e"])
     app = m["cogent3"].get_app("align_to_ref", ref_seq=c["ref"], **kw)
+    limit = _limit(c)
+    m["pw"].HIRSCHBERG_LIMIT = m["limit"] if limit is None else limit
+    try:
+        return _run_ref_body(c, m, app, seqs)
+    finally:
+        m["pw"].HIRSCHBERG_LIMIT = m["limit"]
+
+
+def _run_ref_body(c, m, app, seqs):
     res = app(seqs)
     if not res:  # NotCompleted
         raise RuntimeError(str(res)[:300])
@@ -131,7 +187,8 @@ def run_prog(c):
         kw["guide_tree"] = c["tree"]
     app = m["cogent3"].get_app("progressive_align", **kw)
     # the same app with the linear-space (Hirschberg) code path forced, when asked
-    m["pw"].HIRSCHBERG_LIMIT = 0 if c.get("hirsch") else m["limit"]
+    limit = _limit(c)
+    m["pw"].HIRSCHBERG_LIMIT = m["limit"] if limit is None else limit
     try:
         res = app(seqs)
     finally:
